@@ -210,7 +210,7 @@ def run(ctx):
         cls = [x for x in t["f"].get("closures", []) if x in prog.fns]
         ctx.need(len(cls) == 1, "predicate closure of %s" % short(user))
         acc_paths = true_paths(prog.fns[cls[0]])
-        handled = nonpanic_paths(f)
+        handled = nonpanic_paths(f, token_kind_adts(prog))
         ctx.instance(1, {"in": short(user), "filter accepts": sorted(acc_paths), "match handles": sorted(handled)})
         ok = bool(acc_paths) and acc_paths <= handled
         ctx.oblig(ok, None)
@@ -301,8 +301,22 @@ def true_paths(f):
     return {p for p in out if "*" not in p}
 
 
-def nonpanic_paths(f):
-    """discriminant value tuples (on the match over the filtered token's kind) that lead to a return, not to a panic"""
+def token_kind_adts(prog):
+    """TokenKind and the enums its variants carry (LiteralKind, DirKind, ...): the enums that make up a token's kind"""
+    TK = "lace::lexer::TokenKind"
+    out = {TK}
+    for v in prog.adt(TK)["variants"]:
+        for fld in v.get("fields", []):
+            ty = fld.get("ty", "")
+            for nm in prog.adts:
+                if prog.adts[nm].get("kind") == "enum" and (nm.endswith("::" + ty) or nm.split("::", 1)[-1] == ty):
+                    out.add(nm)
+    return out
+
+
+def nonpanic_paths(f, adts=None):
+    """discriminant value tuples (on the match over the filtered token's kind) that lead to a return, not to a panic; only
+    matches on the enums in `adts` (those the filter looks at) count - a later match on something else is not part of the token's kind"""
     out = set()
     TK = "lace::lexer::TokenKind"
     sws = list(kit.discr_switches(f, TK))
@@ -319,7 +333,7 @@ def nonpanic_paths(f):
             out.add(tuple(acc))
             return
         cond = t[1]
-        if cond[0] == "discr":
+        if cond[0] == "discr" and (adts is None or cond[2] in adts):
             for v, sub in t[2].items():
                 walk(sub, acc + [v])
             walk(t[3], acc + ["*"])
